@@ -298,4 +298,85 @@ theorem k_arrayIsRange_eq (a : WArr) (start end_ : Nat) (value : Bool) :
       simp only [iand_natCast]
       cases value <;> simp [Int.natCast_inj]
 
+/-- what the regenerated `AppendBits` must return: `(failed, bits, size)` -/
+def expAppendBits (orig : WArr) : Res WArr → Res (Bool × List Int × Int)
+  | .ok a' => .ok (false, words a'.words, (a'.size : Int))
+  | .error .illegalArg => .ok (true, words orig.words, (orig.size : Int))
+  | .error e => .error e
+
+theorem ensureCapacity_size (a : WArr) (n : Nat) : (WArr.ensureCapacity a n).size = a.size := by
+  unfold WArr.ensureCapacity; split <;> rfl
+
+when_kernel Gzx.Gen.K16b.arrayAppendBits in
+/-- `BitArray.AppendBits(value, numBits)` = `WArr.appendBits`: range check of `numBits`, ensureCapacity(size+numBits), then for
+    `numBitsLeft = numBits-1 … 0` bit `nextSize` is set when bit `numBitsLeft` of `value` is, `nextSize++`; `size = nextSize` -/
+theorem k_arrayAppendBits_eq (a : WArr) (value numBits : Nat) :
+    Gen.K16b.arrayAppendBits (words a.words) a.size value numBits = expAppendBits a (WArr.appendBits a value numBits) := by
+  simp only [Gen.K16b.arrayAppendBits, WArr.appendBits]
+  by_cases h1 : numBits > 32
+  · resolve_ifs; rfl
+  resolve_ifs
+  rw [show (a.size : Int) + (numBits : Int) = ((a.size + numBits : Nat) : Int) by omega, k_arrayEnsureCapacity_eq]
+  simp only [tryR_ok]
+  rw [loop_down_fold' (fun (p : List Nat × Nat) => (words p.1, (p.2 : Int))) (WArr.appendBitsStep value) numBits
+        ((WArr.ensureCapacity a (a.size + numBits)).words, (WArr.ensureCapacity a (a.size + numBits)).size)
+        (by rw [ensureCapacity_size]) (by rw [tripDown_one]; omega) rfl, ofRes_thenR]
+  · cases hf : (List.range numBits).reverse.foldlM (WArr.appendBitsStep value)
+        ((WArr.ensureCapacity a (a.size + numBits)).words, (WArr.ensureCapacity a (a.size + numBits)).size) with
+    | ok p => rfl
+    | error e =>
+      have hn : NotArg e := by
+        refine foldlM_error NotArg _ (fun t k e h => ?_) _ _ _ hf
+        unfold WArr.appendBitsStep at h
+        split at h
+        · cases hu : updWord t.1 (t.2 / 32) (fun w => w ||| 1 <<< (t.2 % 32)) with
+          | ok ws => rw [hu] at h; cases h
+          | error e' => rw [hu] at h; injection h with h; subst h; exact updWord_error hu
+        · cases h
+      cases e <;> first | rfl | exact absurd rfl hn
+  · intro k hk p
+    obtain ⟨ws, n⟩ := p
+    simp only [Gen.K16b.arrayAppendBits_body1, WArr.appendBitsStep]
+    rw [shl_of_nonneg _ _ (by omega)]
+    simp only [tryC_ok]
+    rw [ishl_one, iand_natCast, natCast_bne_zero]
+    cases hb : (value &&& 1 <<< k != 0) with
+    | false => simp [Except.map]
+    | true =>
+      simp only [if_true]
+      rw [shl_of_nonneg _ _ (by gonorm; omega)]
+      simp only [tryC_ok]
+      rw [updC ws (n / 32) (fun w => w ||| 1 <<< (n % 32))]
+      · cases updWord ws (n / 32) _ <;> simp [Except.map]
+      · gonorm; omega
+      · gonorm; omega
+      · intro w; gonorm
+        rw [bit_natCast _ (n % 32) (by omega) (by omega), ior_natCast]
+
+when_kernel Gzx.Gen.K16b.arrayAppendBitArray in
+/-- `BitArray.AppendBitArray(other)` = `WArr.appendBitArray`: ensureCapacity(size+other.size), then `AppendBit(other.Get(i))`
+    for every `i < other.size` (through the regenerated `Get` and `AppendBit`) -/
+theorem k_arrayAppendBitArray_eq (a other : WArr) :
+    Gen.K16b.arrayAppendBitArray (words a.words) a.size (words other.words) other.size =
+      expAS (WArr.appendBitArray a other) := by
+  simp only [Gen.K16b.arrayAppendBitArray, WArr.appendBitArray, expAS]
+  rw [show (a.size : Int) + (other.size : Int) = ((a.size + other.size : Nat) : Int) by omega, k_arrayEnsureCapacity_eq]
+  simp only [tryR_ok]
+  generalize hF : (fun (b : WArr) (i : Nat) => do let bit ← other.get i; b.appendBit bit) = F
+  rw [List.range_eq_range', loop_up_fold' (fun (b : WArr) => (words b.words, (b.size : Int)))
+        F 0 other.size (WArr.ensureCapacity a (a.size + other.size))
+        (by rw [ensureCapacity_size]) (by rw [tripUp_one]; omega) (by omega), ofRes_thenR]
+  · cases (List.range' 0 other.size).foldlM F (WArr.ensureCapacity a (a.size + other.size)) <;> rfl
+  · subst hF
+    intro i _ _ b
+    simp only [Gen.K16b.arrayAppendBitArray_body1]
+    rw [k_arrayGet_eq]
+    simp only [bind, Except.bind]
+    cases other.get i with
+    | error e => rfl
+    | ok bit =>
+      simp only [tryC_ok]
+      rw [k_arrayAppendBit_eq]
+      cases b.appendBit bit <;> rfl
+
 end Gzx.Obligations.K16bArr
